@@ -66,6 +66,20 @@ def gen_calls(rng: random.Random) -> Dict[str, Any]:
             r = rng.random()
             words.append(0 if r < 0.2 else 1 if r < 0.25 else mask if r < 0.35 else (start + i) * w & mask if r < 0.5
                          else rng.getrandbits(w))
+        prior = [c for c in calls if c[0] == 'segment' and c[5] > 0]
+        if prior and rng.random() < 0.08:
+            # a data range that overlaps an earlier segment's range by exactly k words (k = 1 is the smallest overlap there is)
+            a = rng.choice(prior)
+            k = rng.choice([1, 1, 2, 3])
+            off = a[4] + a[5] - k
+            avail = sum(len(d) for d in datas[a[3]:]) - off
+            dl = 2 * rng.randrange(1, max(2, avail // 2 + 1)) if avail >= 2 else 0
+            dl = min(dl, avail - avail % 2, length - length % 2)
+            if dl >= 2 and off >= 0:
+                calls.append(['segment', start, length, a[3], off, dl])
+                flaws.append('shared-data')
+                placed.append((start, length))
+                continue
         share = datas and rng.random() < 0.15
         if share:  # refer to (part of) an earlier data block - legal in versions 0/1
             ref = rng.randrange(len(datas))
